@@ -977,6 +977,12 @@ func (r *CrashRun) foreignBackup() (v *Violation) {
 	}
 	other.Env.BackupLocation = r.backupDir
 	other.Env.BackupSchedule = "*/5 * * * *"
+	if r.curOp < len(r.Sc.Ops) && r.Sc.Ops[r.curOp].N == 1 {
+		// stale settings of a hub that was moved to a new store: the rsync source directory still names the old
+		// store (it plays no part in a native backup, which always dumps the store that is open)
+		other.Env.BackupSourceLocation = r.H.Dir
+		r.Stats["foreign_backup_with_stale_source_location"]++
+	}
 	before := dirFingerprint(r.backupDir)
 	bm, err := server.VerifNewBackupManager(other.Store, other.Env)
 	if err == nil && bm != nil {
